@@ -1,8 +1,8 @@
 """What MANIFEST.json claims, per property.  Edited by hand; MANIFEST.json is generated."""
 
 ENGINES = [
-    {'name': 'vloop', 'path': 'vp/vloop.py', 'serves_properties': [], 'kind_free_text': 'virtual asyncio loop with explicit, classified ready-queue (order-preserving-delay scheduler seam)'},
-    {'name': 'explore', 'path': 'vp/explore.py', 'serves_properties': [], 'kind_free_text': 'deviation-bounded stateless schedule explorer (replay prefix on fresh objects, divergence = harness error)'},
+    {'name': 'vloop', 'path': 'vp/vloop.py', 'serves_properties': ['C03'], 'kind_free_text': 'virtual asyncio loop with explicit, classified ready-queue (order-preserving-delay scheduler seam)'},
+    {'name': 'explore', 'path': 'vp/explore.py', 'serves_properties': ['C03'], 'kind_free_text': 'deviation-bounded stateless schedule explorer (replay prefix on fresh objects, divergence = harness error)'},
     {'name': 'enumerate', 'path': 'vp/props/*.py', 'serves_properties': ['C02', 'C04'], 'kind_free_text': 'bounded-exhaustive enumeration of inputs/histories against a Python reference model, executed on the real code'},
 ]
 
@@ -25,6 +25,14 @@ CLAIMS['C04'] = {
     'technique': 'explicit-state BFS over operation histories of the real DataPacketQueue / Host / FlowControlAsyncPipe with canonical-state dedup, lock-step Python reference model, invariants on every transition',
     'text': 'BFS to depth 7 (quick) / 9 (thorough) over enqueue/completion-report(0,1,2,exact,exact+1; known and unknown handles)/flush/drain histories for buffer counts 1..3 and 2-3 connections on the real DataPacketQueue, the same alphabet injected as HCI events into a real Host, and BFS over write/pause/resume/loop-step/sink-drain histories of the real FlowControlAsyncPipe; after every transition: credits never exceeded, each packet sent exactly once in per-connection order, nothing waits while a buffer is free, drain() done when nothing is queued or in flight; every distinct state is then run to completion.',
     'note': 'Payload contents dropped from the canonical key (the class never reads them). After a controller over-report only the weaker clauses are asserted. Early drain() returns are counted, not flagged.',
+}
+
+CLAIMS['C03'] = {
+    'level': 'exploration',
+    'engine': 'explore',
+    'technique': 'bounded-exhaustive enumeration of command packets x link situations on the real Host/Controller pair, deviation-bounded exhaustive schedule exploration of concurrent callers, and fault-point enumeration over every message boundary of pending procedures',
+    'text': 'reply: every registered HCI command class (389 opcodes incl. vendor and unregistered ones) with parameter blocks varied byte-wise and handle/address fields aimed at live and dead objects, in 4 link situations (fresh, LE-connected, classic-connected, controller without link): exactly one Command Complete/Status with that opcode, caller completes, a later command is answered. serialise: 6 scripts of 2-5 concurrent callers on one/both hosts (also while an LE connection is being established), all order-preserving host<->controller/link delivery delays up to 1 (quick) / 3 (thorough) deviations: never two commands outstanding, every response matches the outstanding opcode, every caller finishes. procedure: 10 pending procedures x situations x {peer disconnects, local disconnect, peer vanishes} injected before every message delivery: an accepted procedure is concluded by exactly one completion event.',
+    'note': 'Only the virtual controller is in scope. Commands are well-formed for their class. Response timeouts and caller cancellation are outside the stated space and not explored. 12 recorded findings (no link-loss detection; CIS reject/teardown not implemented) are listed in known_findings.json.',
 }
 
 NOT_CLAIMED = {}
